@@ -246,6 +246,63 @@ class _:
                 raise Fail(f"weights-total:{cls}", f"{case}: weights sum {w.sum()} but {rep} entries")
 
 
+@check("c13.sampler_primitives", ["C13"], ["pyttb.gcp.samplers.zeros", "pyttb.gcp.samplers.nonzeros"])
+class _:
+    """The two primitive samplers called directly, with and without replacement, on sparse tensors of unequal mode sizes:
+    `zeros` returns in-range subscripts of true zeros (pairwise distinct without replacement), `nonzeros` returns stored
+    entries with their values (pairwise distinct without replacement)."""
+
+    def cases(self, tier, rng):
+        for shp in [(3, 4, 5), (5, 2), (2, 3, 2, 4), (4, 4, 4)]:
+            for k in (1, 5, 12):
+                for repl in (True, False):
+                    for seed in range(2 if tier == "quick" else 5):
+                        yield dict(shape=list(shp), k=k, repl=repl, seed=rng.randrange(10**6))
+
+    def classify(self, case):
+        return "with-replacement" if case["repl"] else "without-replacement"
+
+    def run(self, case):
+        ttb = import_pyttb()
+        from pyttb.gcp import samplers
+        from pyttb.pyttb_utils import tt_sub2ind
+        rs = np.random.RandomState(case["seed"])
+        np.random.seed(case["seed"])
+        shp = tuple(case["shape"])
+        X = np.where(rs.rand(*shp) < 0.5, np.round(rs.rand(*shp) * 4 + 1), 0.0)
+        data = ttb.tensor(X.copy()).to_sptensor()
+        if data.nnz == 0 or data.nnz == X.size:
+            return
+        nz_idx = np.sort(tt_sub2ind(shp, data.subs))
+        k = case["k"]
+        nzeros = int(X.size - data.nnz)
+        if case["repl"] or k <= nzeros:
+            try:
+                zs = np.asarray(samplers.zeros(data, nz_idx, k, with_replacement=case["repl"]))
+            except ValueError:
+                if case["repl"]:
+                    raise
+                zs = np.zeros((0, len(shp)), dtype=int)      # declined: too few zeros left for rejection sampling
+            if zs.ndim != 2 or zs.shape[1] != len(shp) or zs.shape[0] > k:
+                raise Fail("zeros:shape", f"{case}: {zs.shape}")
+            if len(zs) and ((zs < 0).any() or (zs >= np.array(shp)).any()):
+                raise Fail("zeros:out-of-range", f"{case}")
+            bad = [tuple(int(t) for t in z) for z in zs if X[tuple(int(t) for t in z)] != 0]
+            if bad:
+                raise Fail("zeros:returns-a-stored-nonzero", f"{case}: {bad[:3]} hold {[float(X[b]) for b in bad[:3]]}")
+            if not case["repl"] and len({tuple(z) for z in zs.tolist()}) != len(zs):
+                raise Fail("zeros:repeated-without-replacement", f"{case}")
+        if case["repl"] or k <= data.nnz:
+            subs, vals = samplers.nonzeros(data, k, with_replacement=case["repl"])
+            subs, vals = np.asarray(subs), np.asarray(vals, dtype=float).reshape(-1)
+            if subs.shape != (k, len(shp)) or vals.shape != (k,):
+                raise Fail("nonzeros:shape", f"{case}: {subs.shape} {vals.shape}")
+            if any(X[tuple(int(t) for t in s_)] != v or v == 0 for s_, v in zip(subs, vals)):
+                raise Fail("nonzeros:values-differ-from-data", f"{case}")
+            if not case["repl"] and len({tuple(z) for z in subs.tolist()}) != k:
+                raise Fail("nonzeros:repeated-without-replacement", f"{case}")
+
+
 @check("c13.sampler_object", ["C13"], ["pyttb.gcp.samplers.GCPSampler", "pyttb.gcp.samplers.stratified", "pyttb.gcp.samplers.uniform",
                                        "pyttb.gcp.samplers.semistrat"])
 class _:
